@@ -4,6 +4,7 @@ Flat 64-bit address space: object k lives at k<<32.  Memory is byte-granular
 with whole-value fast path.  Doubles are python floats or z3 Float64 terms.
 """
 import math
+import os
 import struct
 import sys
 import time
@@ -226,7 +227,7 @@ class Executor:
         self.hang_is_finding = False
         self.no_addr_fork = False
         self.solver = z3.Solver()
-        self.solver.set('timeout', 30000)
+        self.solver.set('timeout', int(os.environ.get('LLSYM_Z3_TIMEOUT_MS', '30000')))
         self.sstack = []  # constraints currently pushed
         self.gaddr = {}
         self.faddr = {}
@@ -332,9 +333,23 @@ class Executor:
         if r == z3.sat:
             mdl = self.solver.model()
         elif r == z3.unknown:
-            if extra is not None:
+            # second back end: cvc5 on the same assertions with bit-vectors solved as integers (decides the
+            # multiply/divide kernels that bit-blasting does not finish); a sat answer is turned back into a z3 model
+            r2, vals = self.cvc5_fallback(self.solver.to_smt2())
+            if r2 == 'sat':
+                self.solver.push()
+                for (nm, w), v in vals.items():
+                    self.solver.add(z3.BitVec(nm, w) == z3.BitVecVal(v, w))
+                r3 = self.solver.check()
+                if r3 == z3.sat:
+                    mdl = self.solver.model()
                 self.solver.pop()
-            raise Finding('unknown', 'solver returned unknown')
+                if r3 != z3.sat:
+                    r2 = 'unknown'
+            if r2 == 'unknown':
+                if extra is not None:
+                    self.solver.pop()
+                raise Finding('unknown', 'solver returned unknown')
         if extra is not None:
             self.solver.pop()
         dt = time.time() - t0
@@ -347,6 +362,49 @@ class Executor:
             txt = self.solver.sexpr()
             print('SLOW %.2fs' % dt, 'fp' if 'fp.' in txt or 'to_fp' in txt else 'nofp', len(txt), 'extra:', str(extra)[:300], self.where(st))
         return mdl
+
+    def cvc5_fallback(self, smt2):
+        t0 = time.time()
+        self.stats['cvc5_queries'] = self.stats.get('cvc5_queries', 0) + 1
+        res, vals = 'unknown', {}
+        try:
+            import cvc5
+            slv = cvc5.Solver()
+            slv.setOption('solve-bv-as-int', 'sum')
+            slv.setOption('produce-models', 'true')
+            slv.setOption('tlimit-per', os.environ.get('LLSYM_CVC5_TIMEOUT_MS', '120000'))
+            slv.setLogic('ALL')
+            ip = cvc5.InputParser(slv)
+            ip.setStringInput(cvc5.InputLanguage.SMT_LIB_2_6, smt2, 'q')
+            sm = ip.getSymbolManager()
+            out = ''
+            while True:
+                c = ip.nextCommand()
+                if c.isNull():
+                    break
+                o = c.invoke(slv, sm)
+                if o.strip():
+                    out = o.strip()
+            if out == 'unsat':
+                res = 'unsat'
+            elif out == 'sat':
+                res = 'sat'
+                for t in sm.getDeclaredTerms():
+                    so = t.getSort()
+                    if not so.isBitVector():
+                        raise RuntimeError('non-bit-vector constant in cvc5 model')
+                    v = slv.getValue(t)
+                    vals[(str(t), so.getBitVectorSize())] = int(v.getBitVectorValue(10))
+        except Exception as e:  # any cvc5 trouble leaves the query undecided
+            if self.verbose:
+                print('cvc5 fallback failed:', type(e).__name__, str(e)[:200])
+            res, vals = 'unknown', {}
+        dt = time.time() - t0
+        self.stats['cvc5_time'] = self.stats.get('cvc5_time', 0) + dt
+        self.stats['cvc5_' + res] = self.stats.get('cvc5_' + res, 0) + 1
+        if self.verbose:
+            print('cvc5 fallback: %s in %.1fs' % (res, dt))
+        return res, vals
 
     def model_true(self, st, c):
         if st.model is None:
